@@ -124,10 +124,15 @@ func (p *Prog) fieldKey(structT types.Type, idx int) string {
 	return "F|" + p.structKeyName(structT) + "|" + st.Field(idx).Name()
 }
 
-func (p *Prog) elemKey(elem types.Type) string { return "E|" + string(p.SortOf(elem)) }
+// element heaps are per Go element type (slices of different element types cannot alias)
+func (p *Prog) elemKey(elem types.Type) string {
+	return "E|" + string(p.SortOf(elem)) + "|" + sanitize(p.relTypeString(elem))
+}
 func (p *Prog) cellKey(elem types.Type) string { return "C|" + string(p.SortOf(elem)) }
+// map heap keys are per Go map type (so that e.g. the template cache and a template's block table
+// live in different arrays although both are map[string]pointer)
 func (p *Prog) mapKey(m *types.Map) string {
-	return "M|" + string(p.SortOf(m.Key())) + "|" + string(p.SortOf(m.Elem()))
+	return "M|" + string(p.SortOf(m.Key())) + "|" + string(p.SortOf(m.Elem())) + "|" + sanitize(p.relTypeString(m))
 }
 func (p *Prog) wildKey(elem types.Type) string { return "W|" + string(p.SortOf(elem)) }
 
